@@ -31,9 +31,12 @@ manifest = {
     "setup_cmd": "cd /verif && ./check --setup",
     "hooks": {
         "guard": "sylt_verif",
-        "enable": "not used: every observation is made through sylt's public API (tokenizer, parser, compile_with_reader_to_writer, the sylt binary); no source hooks exist",
+        "enable": "rustc cfg: RUSTFLAGS='--cfg sylt_verif' when building the harness binary `unify` into harness/target-hooked (vlib.harness_hooked); the hooks "
+                  "(sylt-compiler/src/verif_trace.rs + four emit sites in typechecker.rs) log the type checker's union-find events (push, constraint added, "
+                  "constraints copied, union) into a thread-local buffer that is empty unless sylt_compiler::verif_trace::start() was called; every other observation "
+                  "is made through sylt's public API with the guard off",
         "baseline_off_cmd": "cd /repo && cargo test --workspace --no-fail-fast --offline",
-        "source_commits": [],
+        "source_commits": ["ca2ddd0"],
         "add_only": True,
     },
     "engines": [
